@@ -13,7 +13,7 @@ _base_metrics.py, which is what the driver ops `bms.*` evaluate; the hand model'
    "for labels in {0,1}, {-1,1}"                default_encodings_accepted, default_restricted_iff                       FULL
    "or any two values with pos_label given"     two_values_accepted, src_labels_pos_last, accepted_pos;
                                                 rejected otherwise: too_many_rejected, foreign_pos_rejected              FULL
- 2 "return scalars"                             correspondence only (shape of the Python object: relation C14.scalar_result)
+ 2 "return scalars"                             the rates: correspondence only (relation C14.scalar_result); see clause 5
    "in [0,1]"                                   rate_in_unit_interval, rate_public_in_unit_interval, src_rate_in_unit_interval  FULL
  3 "TPR+FNR = 1 when a positive row exists … (both terms are 0 otherwise)", same for TNR+FPR
       tpr_add_fnr / tnr_add_fpr (in terms of the confusion-matrix row total), rowTot_pos_of_row,
@@ -28,7 +28,10 @@ _base_metrics.py, which is what the driver ops `bms.*` evaluate; the hand model'
    "mean_prediction the weighted mean prediction"  meanPrediction_def, meanPrediction_spec (division-free, unique),
       meanPrediction_between, meanPrediction_unit, src_mean_prediction_def/_spec                                       FULL
    "count the number of rows"                    count_def, src_count_eq_model, src_count_inconsistent                   FULL
-   "each returned as a scalar"                   correspondence only (C14.scalar_result)
+   "each returned as a scalar"                   src_selection_rate_scalar, src_mean_prediction_scalar over the SHAPE-level
+      translation (Generated/SqueezeSrc.lean) of the bodies and of `_convert_to_ndarray_and_squeeze`: src_squeeze_vector,
+      src_squeeze_column, src_squeeze_never_scalar, src_selection_rate_empty_shape; `count` returns `len(...)`, a Python
+      int (C14.scalar_result); the primitives' shapes are tied to numpy by the ops `nds.*` (C14.shape_model)            FULL
 
 TOTALISATION (points where Lean's `x / 0 = 0` or a default would otherwise decide; each replayed on fairlearn):
   * `ratio n 0 = 0` in the rates is sklearn's `nan_to_num` of an empty confusion-matrix row (real: 0.0) — modelled,
@@ -50,6 +53,7 @@ TOTALISATION (points where Lean's `x / 0 = 0` or a default would otherwise decid
 import FairModel.Lemmas.BaseMetrics
 import FairModel.Lemmas.BaseMetricsSrc
 import FairModel.Lemmas.C14Review
+import FairModel.Lemmas.SqueezeSrc
 
 namespace C14
 open BaseMetrics
@@ -736,5 +740,80 @@ example : BaseMetricsSrc.false_negative_rate (colT ex1) (colP ex1) none (some 0)
 example : BaseMetricsSrc.get_labels_for_confusion_matrix [7, 7] (some 7) = .ok [int64Min, 7] := by decide +kernel
 example : BaseMetricsSrc.get_labels_for_confusion_matrix [3, 7, 3] (some 3) = .ok [7, 3] := by decide +kernel
 example : BaseMetricsSrc.selection_rate [1] [1] 1 (some [2]) = .ok 1 := by decide +kernel
+
+/-! ### "returns a scalar": the shape-level translation (`Generated/SqueezeSrc.lean`)
+
+`harness/lifters/base_metrics.py::lift_squeeze` translates `_convert_to_ndarray_and_squeeze`
+(fairlearn/utils/_input_manipulations.py: `np.asarray`, the `size == 0` / `size > 1` / else branches with
+`np.squeeze` / `reshape(1)`) and the bodies of `selection_rate` / `mean_prediction` into functions on numpy SHAPES
+(`Model/NdShape.lean`).  `[]` is the 0-d shape — what numpy returns as a scalar. -/
+section Shapes
+open NdShape SqueezeSrc
+
+/-- the reading of the value-level translation (`_convert_to_ndarray_and_squeeze(v)` of a vector is `v`) is a theorem
+    about the translated helper: a vector of ANY length — also the empty and the ONE-ELEMENT vector (F1: with
+    `np.squeeze` in the last branch a one-element vector becomes 0-d and `len()` raises) — keeps its shape -/
+theorem src_squeeze_vector (n : Nat) : convert_to_ndarray_and_squeeze_shape [n] = .ok [n] := conv_vec n
+
+/-- a single-column / single-row 2-d input (a one-column DataFrame) becomes the vector -/
+theorem src_squeeze_column (n : Nat) (hn : 0 < n) :
+    convert_to_ndarray_and_squeeze_shape [n, 1] = .ok [n] ∧ convert_to_ndarray_and_squeeze_shape [1, n] = .ok [n] := by
+  rw [conv_eq, conv_eq]
+  have hs1 : size [n, 1] = n := by simp [size]
+  have hs2 : size [1, n] = n := by simp [size]
+  rw [hs1, hs2]
+  by_cases h1 : n > 1
+  · have hne : n ≠ 1 := by omega
+    have h0 : n ≠ 0 := by omega
+    simp [h0, h1, npSqueeze, hne]
+  · have : n = 1 := by omega
+    subst this; simp [npReshape, size]
+
+/-- the helper never hands out a 0-d array ("a special case to stop single element arrays being converted to scalars"),
+    whatever the input shape: the result has at least one dimension -/
+theorem src_squeeze_never_scalar (s r : Shape) (h : convert_to_ndarray_and_squeeze_shape s = .ok r) : r ≠ [] := by
+  rw [conv_eq] at h
+  by_cases h0 : size s = 0
+  · simp only [h0, if_true, Except.ok.injEq] at h
+    subst h; exact size_zero_ne_nil s h0
+  · by_cases h1 : size s > 1
+    · simp only [h0, if_false, h1, if_true, Except.ok.injEq] at h
+      subst h; exact squeeze_ne_nil s h1
+    · simp only [h0, if_false, h1, npReshape] at h
+      split at h
+      · simp only [Except.ok.injEq] at h; subst h; simp
+      · simp at h
+
+/-- **"selection_rate … returned as a scalar"**: for predictions of any length n ≥ 1 (vector or single column), without
+    weights or with a weight vector (column) of the same length, the translated body returns the 0-d shape -/
+theorem src_selection_rate_scalar (n : Nat) (hn : 0 < n) (yt : Shape) :
+    selection_rate_shape yt [n] none = .ok [] ∧ selection_rate_shape yt [n] (some [n]) = .ok [] ∧
+    selection_rate_shape yt [n, 1] (some [n, 1]) = .ok [] := by
+  have h0 : (n == 0) = false := by simp; omega
+  refine ⟨?_, ?_, ?_⟩ <;>
+    simp [selection_rate_shape, conv_vec, (src_squeeze_column n hn).1, npBroadcast, npLen, npDot, npSum, h0,
+      bind, Except.bind]
+
+/-- … and an empty prediction vector raises (`ValueError`, the "Empty y_pred" guard) -/
+theorem src_selection_rate_empty_shape (yt : Shape) (w : Option Shape) :
+    selection_rate_shape yt [0] w = .error .valueError := by
+  cases w <;> simp [selection_rate_shape, conv_vec, npBroadcast, npLen, bind, Except.bind, throw, throwThe,
+    MonadExceptOf.throw]
+
+/-- **"mean_prediction … returned as a scalar"** -/
+theorem src_mean_prediction_scalar (n : Nat) (yt : Shape) :
+    mean_prediction_shape yt [n] none = .ok [] ∧ mean_prediction_shape yt [n] (some [n]) = .ok [] := by
+  constructor <;>
+    simp [mean_prediction_shape, conv_vec, npBroadcast, npLen, npDot, npSum, bind, Except.bind]
+
+-- non-vacuity / the interesting points: one element stays a vector; a 1x1 matrix and a 0-d input become `[1]`
+example : convert_to_ndarray_and_squeeze_shape [1] = .ok [1] ∧ convert_to_ndarray_and_squeeze_shape [1, 1] = .ok [1] ∧
+    convert_to_ndarray_and_squeeze_shape [] = .ok [1] ∧ convert_to_ndarray_and_squeeze_shape [0] = .ok [0] ∧
+    convert_to_ndarray_and_squeeze_shape [3, 1, 2] = .ok [3, 2] := by decide +kernel
+example : selection_rate_shape [1] [1] (some [1]) = .ok [] ∧ mean_prediction_shape [1] [1] none = .ok [] := by decide +kernel
+-- a 2-d prediction matrix (outside the quantifier: label VECTORS) does not slip through as a scalar: `np.dot` raises
+example : selection_rate_shape [3, 2] [3, 2] none = .error .valueError := by decide +kernel
+
+end Shapes
 
 end C14
